@@ -6,7 +6,7 @@ import vlib
 SD = os.path.join(vlib.SPECS, "text")
 TOKENS = ["-a", "-b", "-f", "-fx", "-abf", "-afb", "-z", "-az", "--foo", "--foo=v", "--foo=", "--foobar", "--foobar=v", "--fo", "--bar", "--b",
           "--b=--", "--long-opt=1", "--long", "-xa", "-ax", "--", "-", "", "op", "--x", "--=v", "--long-opt", "--lon", "--a", "--a=", "-x=1", "-=",
-          "---", "--foo=a=b", "-ffoo", "-f-", "--foobar=", "--b=", "-bf", "-f=v", "-f=", "-bf=", "-b=", "-f==", "-bf=v"]
+          "---", "--foo=a=b", "-ffoo", "-f-", "--foobar=", "--b=", "-bf", "-f=v", "-f=", "-bf=", "-b=", "-f==", "-bf=v", "-a-b", "-a-", "-a--fx", "-b-f", "-a--", "-ab-", "--foo=-", "-f--"]
 
 
 def build(c):
@@ -37,7 +37,7 @@ def main(c):
     lines = []
     for t in (1, 2, 3):
         r, cases = vlib.tlc_emit(SD, "GetoptMC", "GetoptMC_%d_3.cfg" % t, workers=4, timeout=900)
-        c.add_mc("GetoptMC table %d (every argv of length <= 3 over 30 tokens; one getopt() call per step)" % t, r)
+        c.add_mc("GetoptMC table %d (every argv of length <= 3 over 33 tokens; one getopt() call per step)" % t, r)
         if not cases:
             raise vlib.ToolFailure("GetoptMC produced nothing\n" + r.out[-2000:])
         c.cov.setdefault("enumerated_vectors", {})["table%d" % t] = len(cases)
@@ -57,7 +57,7 @@ def main(c):
     progs = chunk_programs(lines, rnd) + chunk_programs(extra, rnd)
     vlib.conformance(c, exe, progs, SD, "GetoptTrace", "GetoptTrace.cfg", "getopt", procs=12, shards=12, nontrivial=lambda ex: len(ex) > 2)
     c.cov["parses"] = len(lines) + sum(1 for x in extra if x != "fresh")
-    c.cov["rule"] = ("every argument vector of length <= 3 over a 30-token alphabet (registered/unregistered shorts, packs with an argument-taking option in the middle "
+    c.cov["rule"] = ("every argument vector of length <= 3 over a 33-token alphabet (registered/unregistered shorts, packs with an argument-taking option in the middle "
                      "and at the end, long options that are prefixes of one another, '=' forms, '-', '--', '', operands) for three option tables is enumerated by TLC "
                      "and parsed by the real getopt after an optreset that follows a different vector; plus random vectors to length 8 over 40 tokens, parses abandoned "
                      "after 0..3 options, and parses that are the first of a fresh process; every getopt() call is validated by TLC against the grammar; "
